@@ -12,9 +12,9 @@ import (
 	"os/exec"
 	"path/filepath"
 	"regexp"
+	"runtime"
 	"sort"
 	"strconv"
-	"runtime"
 	"strings"
 	"sync"
 	"sync/atomic"
